@@ -211,6 +211,10 @@ def _oracle_worker(case):
         out["num"] = {x: w(t, k, s, x, dpi) for x in UNITS}
         out["name"] = {x: w(t, name, s, x, dpi) for x in UNITS}
         out["empty"] = w("", k if case["by_num"] else name, s, u, dpi)
+        # the same text again at another resolution, in the same process: the pixel width does not depend on dpi and
+        # the unit relations hold at the second dpi as well (whatever was measured before)
+        if case.get("dpi2") is not None:
+            out["num2"] = {x: w(t, k, s, x, case["dpi2"]) for x in UNITS}
         cuts = case["cuts"]
         out["chain_px"] = [w(t[:i], k, s, "px", dpi) for i in cuts]
         out["chain_u"] = [w(t[:i], name, s, u, dpi) for i in cuts]
@@ -293,6 +297,7 @@ def oracle_cases(res, n):
             cuts = sorted(set([0, L] + [rng.randint(1, L - 1) for _ in range(8)] + [L - 1]))
         c = dict(level="oracle", text=t, mode=mode, font=k, size=s, unit=rng.choice(UNITS), dpi=gen_dpi(rng),
                  by_num=rng.random() < 0.5, cuts=cuts, size2=None, scale_dom=None)
+        c["dpi2"] = gen_dpi(rng) if rng.random() < 0.5 else None
         # scaling: a second size
         r = rng.random()
         if r < 0.45 and mode == "iid" and L >= SCALE_MIN_LEN:
@@ -335,6 +340,13 @@ def judge_oracle(res, cases, obs):
         # R3 units
         ask(idx, "units", dict(k="units", tol=frac(UNIT_TOL), dpi=frac(dpi), wpx=frac(o["num"]["px"]),
                                win=frac(o["num"]["in"]), wmm=frac(o["num"]["mm"])))
+        if o.get("num2") is not None:
+            if o["num2"]["px"] != o["num"]["px"]:
+                res.fail(c, f"pixel width {o['num']['px']!r} at dpi {dpi} but {o['num2']['px']!r} at dpi {c['dpi2']} "
+                            "(same text, font, size)")
+                continue
+            ask(idx, "units2", dict(k="units", tol=frac(UNIT_TOL), dpi=frac(c["dpi2"]), wpx=frac(o["num2"]["px"]),
+                                    win=frac(o["num2"]["in"]), wmm=frac(o["num2"]["mm"])))
         # R2 + R5 along the prefix chain, in px and in the case's unit
         ask(idx, "chain_px", dict(k="chain", ws=[frac(x) for x in o["chain_px"]]))
         ask(idx, "chain_u", dict(k="chain", ws=[frac(x) for x in o["chain_u"]]))
@@ -377,6 +389,9 @@ def judge_oracle(res, cases, obs):
             if what == "units":
                 why.append(f"unit conversion broken at dpi {c['dpi']}: px={o['num']['px']!r} in={o['num']['in']!r} "
                            f"mm={o['num']['mm']!r} (expected mm = 25.4*in, px = dpi*in, rel. tol 1e-12)")
+            elif what == "units2":
+                why.append(f"unit conversion broken at dpi {c['dpi2']} after the same text was measured at dpi "
+                           f"{c['dpi']}: px={o['num2']['px']!r} in={o['num2']['in']!r} mm={o['num2']['mm']!r}")
             elif what.startswith("chain"):
                 ws = o[what]
                 j = next((i for i in range(len(ws)) if ws[i] < 0 or (i and ws[i] < ws[i - 1])), 0)
